@@ -1,128 +1,1010 @@
-//! exploratory
+//! C18 — a lite block is a faithful projection of its full block.
+//!
+//! Builds real blocks (world.rs) with n transfers, with and without golden ticket / fee
+//! transaction, and for every keep/omit pattern of the transfers runs the lite-block route of
+//! saito-rust/src/network_controller.rs on the real code:
+//!   bytes -> deserialize_from_net -> generate -> generate_lite_block(keylist)
+//!         -> serialize_for_net -> [client] deserialize_from_net -> generate.
+//! Observed: the lite block, the merkle root recomputed from its transactions, the block held
+//! by the client and the root recomputed there, the root of the full block.  Every 32-byte
+//! value is lifted to a term of the model's free hash (`Leaf id` / `Node l r`, `BH mr fields`)
+//! through a table of hints that is checked with the real hash function (an inner value is
+//! only ever called `Node l r` if hash(l ++ r) really is that value), so the Coq model
+//! (coq/model/Lite.v `observe`) is compared structurally.  The C18 statement itself is
+//! evaluated directly on the implementation's values (oracle).
+use std::collections::{BTreeSet, HashMap};
+use std::panic::{catch_unwind, AssertUnwindSafe};
+use std::sync::Mutex;
+
 use saito_core::core::consensus::block::{Block, BlockType};
-use saito_core::core::consensus::transaction::TransactionType;
+use saito_core::core::consensus::slip::{Slip, SlipType};
+use saito_core::core::consensus::transaction::{Transaction, TransactionType};
+use saito_core::core::defs::SaitoPublicKey;
+use saito_core::core::util::crypto::hash;
+use verif_harness::common::{jstr, Args, Summary};
+use verif_harness::gal;
+use verif_harness::rng::Rng;
 use verif_harness::world::*;
+
+type H32 = [u8; 32];
+
+// ---------------------------------------------------------------- panics
+
+static LAST_PANIC: Mutex<Option<(String, String)>> = Mutex::new(None);
+
+fn install_hook() {
+    std::panic::set_hook(Box::new(|info| {
+        let file = info.location().map(|l| l.file().to_string()).unwrap_or_default();
+        let msg = if let Some(s) = info.payload().downcast_ref::<&str>() {
+            s.to_string()
+        } else if let Some(s) = info.payload().downcast_ref::<String>() {
+            s.clone()
+        } else {
+            String::new()
+        };
+        *LAST_PANIC.lock().unwrap() = Some((file, msg));
+    }));
+}
+
+/// panic sites of the model (merkle.rs sites are not told apart: all 1801)
+fn panic_site() -> u64 {
+    let p = LAST_PANIC.lock().unwrap().take();
+    match p {
+        Some((file, msg)) => {
+            if file.ends_with("merkle.rs") {
+                1801
+            } else if file.ends_with("block.rs") && msg.contains("multiply with overflow") {
+                1812
+            } else if file.ends_with("block.rs") && msg.contains("unwrap()") {
+                1811
+            } else {
+                9999
+            }
+        }
+        None => 9998,
+    }
+}
+
+#[derive(Clone)]
+enum R<T> {
+    Ok(T),
+    Err,
+    Panic(u64),
+}
+impl<T> R<T> {
+    fn ok(&self) -> Option<&T> {
+        match self {
+            R::Ok(v) => Some(v),
+            _ => None,
+        }
+    }
+    fn lit(&self) -> String {
+        match self {
+            R::Ok(_) => unreachable!(),
+            R::Err => "Err".to_string(),
+            R::Panic(s) => format!("(Panic {})", s),
+        }
+    }
+    fn carry<U>(&self) -> R<U> {
+        match self {
+            R::Ok(_) => unreachable!(),
+            R::Err => R::Err,
+            R::Panic(s) => R::Panic(*s),
+        }
+    }
+}
+fn guarded<T>(f: impl FnOnce() -> Option<T>) -> R<T> {
+    match catch_unwind(AssertUnwindSafe(f)) {
+        Ok(Some(v)) => R::Ok(v),
+        Ok(None) => R::Err,
+        Err(_) => R::Panic(panic_site()),
+    }
+}
+
+// ---------------------------------------------------------------- lifting values to terms
+
+struct Sym {
+    intern: Interner,
+    /// inner values: hash(l ++ r) -> "(Node l r)"; every entry was computed with the real hash
+    hv: HashMap<H32, String>,
+    /// block hashes: value -> "(BH mr fields)"; every entry was computed by the real generate_hash
+    bh: HashMap<H32, String>,
+    defs: Vec<String>,
+    def_index: HashMap<String, String>,
+}
+impl Sym {
+    fn new() -> Sym {
+        Sym {
+            intern: Interner::default(),
+            hv: HashMap::new(),
+            bh: HashMap::new(),
+            defs: vec![],
+            def_index: HashMap::new(),
+        }
+    }
+    fn id(&mut self, b: &[u8]) -> u64 {
+        self.intern.get(b)
+    }
+    fn term(&mut self, v: &H32) -> String {
+        if let Some(t) = self.hv.get(v) {
+            return t.clone();
+        }
+        format!("(Leaf {})", self.intern.get(v))
+    }
+    /// shares a literal under a name (purely syntactic)
+    fn def(&mut self, prefix: &str, ty: &str, body: String) -> String {
+        let key = format!("{}|{}", ty, body);
+        if let Some(n) = self.def_index.get(&key) {
+            return n.clone();
+        }
+        let name = format!("{}{}", prefix, self.defs.len());
+        self.defs.push(format!("Definition {} : {} := {}.", name, ty, body));
+        self.def_index.insert(key, name.clone());
+        name
+    }
+    fn reg_pair(&mut self, l: &H32, r: &H32) -> H32 {
+        let v = hash(&[l.as_slice(), r.as_slice()].concat());
+        if !self.hv.contains_key(&v) {
+            let t = format!("(Node {} {})", self.term(l), self.term(r));
+            self.hv.insert(v, t);
+        }
+        v
+    }
+    /// reference construction of the merkle root over a leaf list (pairs left to right, an odd
+    /// last element is carried up unchanged); registers every inner value as a hint
+    fn ref_merkle(&mut self, leaves: &[H32]) -> H32 {
+        if leaves.is_empty() {
+            return [0; 32];
+        }
+        let mut cur = leaves.to_vec();
+        while cur.len() > 1 {
+            let mut next = vec![];
+            for ch in cur.chunks(2) {
+                if ch.len() == 2 {
+                    next.push(self.reg_pair(&ch[0], &ch[1]));
+                } else {
+                    next.push(ch[0]);
+                }
+            }
+            cur = next;
+        }
+        cur[0]
+    }
+    /// hints for combined placeholder hashes: hash over runs of 2, 4, 8 adjacent values
+    fn reg_runs(&mut self, vals: &[H32]) {
+        let mut level = vals.to_vec();
+        let mut width = 1usize;
+        for _ in 0..3 {
+            if level.len() <= width {
+                break;
+            }
+            let mut next = vec![];
+            for i in 0..level.len() - width {
+                next.push(self.reg_pair(&level[i], &level[i + width]));
+            }
+            level = next;
+            width *= 2;
+        }
+    }
+    fn header_hash_value(b: &Block) -> H32 {
+        let mut c = b.clone();
+        c.transactions.clear();
+        c.generate_pre_hash();
+        c.generate_hash()
+    }
+    fn signed_fields(&mut self, b: &Block) -> Vec<u64> {
+        vec![
+            b.id,
+            b.timestamp,
+            self.id(&b.previous_block_hash),
+            self.id(&b.creator),
+            b.graveyard,
+            b.treasury,
+            b.burnfee,
+            b.difficulty,
+            b.avg_fee_per_byte,
+            b.avg_nolan_rebroadcast_per_block,
+            b.previous_block_unpaid,
+            b.avg_total_fees,
+            b.avg_total_fees_new,
+            b.avg_total_fees_atr,
+            b.avg_payout_routing,
+            b.avg_payout_mining,
+        ]
+    }
+    fn reg_block_hash(&mut self, b: &Block) {
+        let v = Sym::header_hash_value(b);
+        if !self.bh.contains_key(&v) {
+            let mr = self.term(&b.merkle_root);
+            let f = self.signed_fields(b);
+            self.bh.insert(v, format!("(BH {} {})", mr, gal::nlist(&f)));
+        }
+    }
+    fn bterm(&mut self, v: &H32) -> String {
+        if let Some(t) = self.bh.get(v) {
+            return t.clone();
+        }
+        format!("(BRaw {})", self.intern.get(v))
+    }
+    fn header_lit(&mut self, b: &Block) -> String {
+        let mr = self.term(&b.merkle_root);
+        let prev = self.id(&b.previous_block_hash);
+        let creator = self.id(&b.creator);
+        let sig = self.id(&b.signature);
+        let nums = [
+            b.graveyard,
+            b.treasury,
+            b.total_fees,
+            b.total_fees_new,
+            b.total_fees_atr,
+            b.total_fees_cumulative,
+            b.avg_total_fees,
+            b.avg_total_fees_new,
+            b.avg_total_fees_atr,
+            b.total_payout_routing,
+            b.total_payout_mining,
+            b.total_payout_treasury,
+            b.total_payout_graveyard,
+            b.total_payout_atr,
+            b.avg_payout_routing,
+            b.avg_payout_mining,
+            b.avg_payout_treasury,
+            b.avg_payout_graveyard,
+            b.avg_payout_atr,
+            b.avg_fee_per_byte,
+            b.fee_per_byte,
+            b.avg_nolan_rebroadcast_per_block,
+            b.burnfee,
+            b.difficulty,
+            b.previous_block_unpaid,
+        ];
+        let body = format!(
+            "mkHeader {} {} {} {} {} {} {}",
+            b.id,
+            b.timestamp,
+            prev,
+            creator,
+            mr,
+            sig,
+            nums.iter().map(|x| x.to_string()).collect::<Vec<_>>().join(" ")
+        );
+        self.def("h", "header", body)
+    }
+    fn tx_lit(&mut self, t: &Transaction) -> String {
+        let sig = self.id(&t.signature);
+        let sig32 = self.id(&t.signature[0..32]);
+        let from: Vec<u64> = t.from.iter().map(|s| self.id(&s.public_key)).collect();
+        let to: Vec<u64> = t.to.iter().map(|s| self.id(&s.public_key)).collect();
+        let rest = if t.from.is_empty() && t.to.is_empty() && t.data.is_empty() && t.path.is_empty() {
+            0
+        } else {
+            let mut bytes: Vec<u8> = vec![];
+            bytes.extend((t.from.len() as u32).to_be_bytes());
+            for s in &t.from {
+                bytes.extend(s.serialize_for_net());
+            }
+            bytes.extend((t.to.len() as u32).to_be_bytes());
+            for s in &t.to {
+                bytes.extend(s.serialize_for_net());
+            }
+            bytes.extend((t.data.len() as u32).to_be_bytes());
+            bytes.extend(&t.data);
+            for h in &t.path {
+                bytes.extend(h.serialize_for_net());
+            }
+            bytes.push(1);
+            self.id(&bytes)
+        };
+        let chash = if t.transaction_type == TransactionType::SPV {
+            0
+        } else {
+            let mut c = t.clone();
+            c.generate_hash_for_signature();
+            self.id(&c.hash_for_signature.unwrap())
+        };
+        let hfs = match &t.hash_for_signature {
+            None => "None".to_string(),
+            Some(h) => format!("(Some {})", self.term(h)),
+        };
+        let body = format!(
+            "mkTx {} {} {} {} {} {} {} {} {} {}",
+            t.transaction_type as u8,
+            t.txs_replacements,
+            sig,
+            sig32,
+            t.timestamp,
+            gal::nlist(&from),
+            gal::nlist(&to),
+            rest,
+            chash,
+            hfs
+        );
+        self.def("t", "tx", body)
+    }
+    fn block_lit(&mut self, b: &Block) -> String {
+        let h = self.header_lit(b);
+        let bh = self.bterm(&b.hash);
+        let txs: Vec<String> = b.transactions.iter().map(|t| self.tx_lit(t)).collect();
+        let body = format!("mkBlock {} {} {}", h, bh, gal::list(&txs));
+        self.def("b", "block", body)
+    }
+    fn root_lit(&mut self, v: &H32) -> String {
+        let t = self.term(v);
+        self.def("r", "hv", t)
+    }
+}
+
+/// leaf values of a transaction list by the expansion rule of MerkleTree::generate
+/// (None if a needed hash is missing: the real code panics there)
+fn leaf_values(txs: &[Transaction]) -> Option<Vec<H32>> {
+    let mut out = vec![];
+    for t in txs {
+        if t.txs_replacements > 1 {
+            if t.txs_replacements > 4096 {
+                return None;
+            }
+            for _ in 0..t.txs_replacements {
+                out.push(t.hash_for_signature.unwrap_or([0; 32]));
+            }
+        } else {
+            out.push(t.hash_for_signature?);
+        }
+    }
+    Some(out)
+}
+
+// ---------------------------------------------------------------- one evaluation
+
+struct Eval {
+    lite: R<Block>,
+    root_lite: R<H32>,
+    client: R<Block>,
+    root_client: R<H32>,
+    root_full: R<H32>,
+}
+
+fn wire_trip(l: &Block) -> Option<Block> {
+    let bytes = l.serialize_for_net(BlockType::Full);
+    let mut c = Block::deserialize_from_net(&bytes).ok()?;
+    c.generate().ok()?;
+    Some(c)
+}
+
+fn evaluate(full: &Block, ks: &[SaitoPublicKey]) -> Eval {
+    let lite = guarded(|| Some(full.generate_lite_block(ks.to_vec())));
+    let root_lite = match lite.ok() {
+        Some(l) => guarded(|| Some(l.generate_merkle_root(false, false))),
+        None => lite.carry(),
+    };
+    let client = match lite.ok() {
+        Some(l) => guarded(|| wire_trip(l)),
+        None => lite.carry(),
+    };
+    let root_client = match client.ok() {
+        Some(c) => guarded(|| Some(c.generate_merkle_root(false, false))),
+        None => client.carry(),
+    };
+    let root_full = guarded(|| Some(full.generate_merkle_root(false, false)));
+    Eval { lite, root_lite, client, root_client, root_full }
+}
+
+fn touches(t: &Transaction, ks: &[SaitoPublicKey]) -> bool {
+    t.from.iter().any(|s| ks.contains(&s.public_key)) || t.to.iter().any(|s| ks.contains(&s.public_key))
+}
+
+fn header_fields(b: &Block) -> Vec<(&'static str, Vec<u8>)> {
+    let n = |x: u64| x.to_be_bytes().to_vec();
+    vec![
+        ("id", n(b.id)),
+        ("timestamp", n(b.timestamp)),
+        ("previous_block_hash", b.previous_block_hash.to_vec()),
+        ("creator", b.creator.to_vec()),
+        ("merkle_root", b.merkle_root.to_vec()),
+        ("signature", b.signature.to_vec()),
+        ("graveyard", n(b.graveyard)),
+        ("treasury", n(b.treasury)),
+        ("total_fees", n(b.total_fees)),
+        ("total_fees_new", n(b.total_fees_new)),
+        ("total_fees_atr", n(b.total_fees_atr)),
+        ("total_fees_cumulative", n(b.total_fees_cumulative)),
+        ("avg_total_fees", n(b.avg_total_fees)),
+        ("avg_total_fees_new", n(b.avg_total_fees_new)),
+        ("avg_total_fees_atr", n(b.avg_total_fees_atr)),
+        ("total_payout_routing", n(b.total_payout_routing)),
+        ("total_payout_mining", n(b.total_payout_mining)),
+        ("total_payout_treasury", n(b.total_payout_treasury)),
+        ("total_payout_graveyard", n(b.total_payout_graveyard)),
+        ("total_payout_atr", n(b.total_payout_atr)),
+        ("avg_payout_routing", n(b.avg_payout_routing)),
+        ("avg_payout_mining", n(b.avg_payout_mining)),
+        ("avg_payout_treasury", n(b.avg_payout_treasury)),
+        ("avg_payout_graveyard", n(b.avg_payout_graveyard)),
+        ("avg_payout_atr", n(b.avg_payout_atr)),
+        ("avg_fee_per_byte", n(b.avg_fee_per_byte)),
+        ("fee_per_byte", n(b.fee_per_byte)),
+        ("avg_nolan_rebroadcast_per_block", n(b.avg_nolan_rebroadcast_per_block)),
+        ("burnfee", n(b.burnfee)),
+        ("difficulty", n(b.difficulty)),
+        ("previous_block_unpaid", n(b.previous_block_unpaid)),
+    ]
+}
+
+/// the C18 statement on the implementation's values; returns (known finding id or "", what)
+fn oracle(full: &Block, ks: &[SaitoPublicKey], ev: &Eval, ref_root: Option<H32>) -> Vec<(String, String)> {
+    let mut out: Vec<(String, String)> = vec![];
+    let fail = |out: &mut Vec<(String, String)>, id: &str, what: String| out.push((id.to_string(), what));
+    let keep: Vec<bool> = full
+        .transactions
+        .iter()
+        .map(|t| touches(t, ks) || t.transaction_type == TransactionType::GoldenTicket)
+        .collect();
+    let any_omitted = keep.iter().any(|k| !*k);
+    let aligned_pair = keep.chunks(2).any(|c| c.len() == 2 && !c[0] && !c[1]);
+    let omitted_multi = full
+        .transactions
+        .iter()
+        .zip(keep.iter())
+        .any(|(t, k)| !*k && t.txs_replacements > 1);
+    let root_full = match &ev.root_full {
+        R::Ok(r) => *r,
+        _ => {
+            fail(&mut out, "", "merkle root of the full block cannot be computed (panic)".to_string());
+            return out;
+        }
+    };
+    let stale = !full.transactions.is_empty() && root_full != full.merkle_root;
+    if let Some(r) = ref_root {
+        if r != root_full {
+            fail(&mut out, "", "generate_merkle_root of the full block differs from the reference construction (pairs left to right, odd element carried)".to_string());
+        }
+    }
+    let lite = match &ev.lite {
+        R::Ok(l) => l,
+        _ => {
+            fail(&mut out, "", "generate_lite_block panicked".to_string());
+            return out;
+        }
+    };
+    // same id, hash, signature, header
+    let hf = header_fields(full);
+    for (i, (name, v)) in header_fields(lite).iter().enumerate() {
+        if *v != hf[i].1 {
+            let id = if *name == "merkle_root" && stale { "stale-merkle-root" } else { "" };
+            fail(&mut out, id, format!("lite block header field {} differs from the full block", name));
+        }
+    }
+    if lite.hash != full.hash {
+        fail(&mut out, "", "lite block hash field differs from the full block".to_string());
+    }
+    // every relevant transaction (and every golden ticket) in full and in order
+    let mut pos = 0usize;
+    for (t, k) in full.transactions.iter().zip(keep.iter()) {
+        if !*k {
+            continue;
+        }
+        let want = t.serialize_for_net();
+        let mut found = false;
+        while pos < lite.transactions.len() {
+            let c = &lite.transactions[pos];
+            pos += 1;
+            if c.serialize_for_net() == want && c.hash_for_signature == t.hash_for_signature {
+                found = true;
+                break;
+            }
+        }
+        if !found {
+            let via = if t.transaction_type == TransactionType::GoldenTicket {
+                "is a golden ticket"
+            } else if t.to.iter().any(|s| ks.contains(&s.public_key)) {
+                "pays to a listed key"
+            } else {
+                "spends from a listed key"
+            };
+            fail(&mut out, "", format!("a transaction that {} is not present in full and in order in the lite block", via));
+            break;
+        }
+    }
+    // placeholders suffice to recompute the commitment, in memory
+    match &ev.root_lite {
+        R::Ok(r) if *r == root_full => {}
+        R::Ok(_) => {
+            let id = if aligned_pair {
+                "merged-placeholders"
+            } else if omitted_multi {
+                "replacements-gt-1"
+            } else {
+                ""
+            };
+            fail(&mut out, id, "merkle root recomputed from the lite block's transactions differs from the full block's".to_string());
+        }
+        _ => fail(&mut out, "", "merkle root of the lite block cannot be computed".to_string()),
+    }
+    // wire trip
+    match &ev.client {
+        R::Ok(c) => {
+            if c.hash != full.hash {
+                let id = if stale { "stale-merkle-root" } else { "" };
+                fail(&mut out, id, "block hash recomputed by the client differs from the full block's hash".to_string());
+            }
+            for (i, (name, v)) in header_fields(c).iter().enumerate() {
+                if *v != hf[i].1 && !(*name == "merkle_root" && stale) {
+                    fail(&mut out, "", format!("header field {} differs after the wire trip", name));
+                }
+            }
+            match &ev.root_client {
+                R::Ok(r) if *r == root_full => {}
+                R::Ok(_) => {
+                    let id = if any_omitted { "spv-hash-not-serialised" } else { "" };
+                    fail(&mut out, id, "merkle root recomputed by the client from the received lite block differs from the full block's".to_string());
+                }
+                _ => fail(&mut out, "", "merkle root cannot be computed by the client".to_string()),
+            }
+        }
+        _ => fail(&mut out, "", "lite block does not survive serialize_for_net / deserialize_from_net / generate".to_string()),
+    }
+    out
+}
+
+// ---------------------------------------------------------------- case collection
+
+struct Ctx {
+    sym: Sym,
+    summary: Summary,
+    coq_cases: Vec<String>,
+    distinct: BTreeSet<String>,
+    known_seen: HashMap<String, u64>,
+}
+
+impl Ctx {
+    fn prepare_block(&mut self, b: &Block) {
+        let vals: Vec<H32> = b.transactions.iter().filter_map(|t| t.hash_for_signature).collect();
+        self.sym.reg_runs(&vals);
+        if let Some(lv) = leaf_values(&b.transactions) {
+            self.sym.ref_merkle(&lv);
+        }
+        self.sym.reg_block_hash(b);
+    }
+
+    /// runs one (block, key list) on the implementation, records model case + oracle verdicts
+    fn run(&mut self, kind: &str, block_name: &str, full: &Block, ks: &[SaitoPublicKey], use_oracle: bool) {
+        let case = self.coq_cases.len();
+        let ev = evaluate(full, ks);
+        // hints (checked with the real hash) before any value is lifted
+        self.prepare_block(full);
+        let ref_root = leaf_values(&full.transactions).map(|lv| self.sym.ref_merkle(&lv));
+        if let Some(l) = ev.lite.ok() {
+            self.prepare_block(l);
+        }
+        if let Some(c) = ev.client.ok() {
+            self.prepare_block(c);
+        }
+        let b_lit = self.sym.block_lit(full);
+        let ks_ids: Vec<u64> = ks.iter().map(|k| self.sym.id(k)).collect();
+        let sym = &mut self.sym;
+        let o_lite = match &ev.lite {
+            R::Ok(l) => format!("(Ok {})", sym.block_lit(l)),
+            o => o.lit(),
+        };
+        let o_root_lite = match &ev.root_lite {
+            R::Ok(r) => format!("(Ok {})", sym.root_lit(r)),
+            o => o.lit(),
+        };
+        let o_client = match &ev.client {
+            R::Ok(c) => format!("(Ok {})", sym.block_lit(c)),
+            o => o.lit(),
+        };
+        let o_root_client = match &ev.root_client {
+            R::Ok(r) => format!("(Ok {})", sym.root_lit(r)),
+            o => o.lit(),
+        };
+        let o_root_full = match &ev.root_full {
+            R::Ok(r) => format!("(Ok {})", sym.root_lit(r)),
+            o => o.lit(),
+        };
+        self.coq_cases.push(format!(
+            "({}, {}, mkObs {} {} {} {} {})",
+            b_lit,
+            gal::nlist(&ks_ids),
+            o_lite,
+            o_root_lite,
+            o_client,
+            o_root_client,
+            o_root_full
+        ));
+        // description + distribution
+        let keep: Vec<bool> = full
+            .transactions
+            .iter()
+            .map(|t| touches(t, ks) || t.transaction_type == TransactionType::GoldenTicket)
+            .collect();
+        let pattern: String = keep.iter().map(|k| if *k { 'K' } else { 'o' }).collect();
+        let types: Vec<u8> = full.transactions.iter().map(|t| t.transaction_type as u8).collect();
+        let lite_shape: String = match ev.lite.ok() {
+            Some(l) => l
+                .transactions
+                .iter()
+                .map(|t| {
+                    if t.transaction_type == TransactionType::SPV {
+                        format!("S{}", t.txs_replacements)
+                    } else {
+                        "K".to_string()
+                    }
+                })
+                .collect::<Vec<_>>()
+                .join(","),
+            None => "panic".to_string(),
+        };
+        let verdict = |a: &R<H32>, b: &R<H32>| match (a, b) {
+            (R::Ok(x), R::Ok(y)) => (x == y).to_string(),
+            _ => "n/a".to_string(),
+        };
+        let desc = format!(
+            "{{\"case\":{},\"kind\":{},\"block\":{},\"block_id\":{},\"tx_types\":{:?},\"replacements\":{:?},\"keep_pattern\":{},\"keylist_ids\":{:?},\"lite_shape\":{},\"root_lite_eq_full\":{},\"root_client_eq_full\":{}}}",
+            case,
+            jstr(kind),
+            jstr(block_name),
+            full.id,
+            types,
+            full.transactions.iter().map(|t| t.txs_replacements).collect::<Vec<_>>(),
+            jstr(&pattern),
+            ks_ids,
+            jstr(&lite_shape),
+            jstr(&verdict(&ev.root_lite, &ev.root_full)),
+            jstr(&verdict(&ev.root_client, &ev.root_full)),
+        );
+        let s = &mut self.summary;
+        s.count("kind", kind);
+        s.count("txs_in_block", &format!("{:02}", full.transactions.len()));
+        let omitted = keep.iter().filter(|k| !**k).count();
+        s.count("omitted", &format!("{:02}", omitted));
+        let merges = match ev.lite.ok() {
+            Some(l) => full.transactions.len() - l.transactions.len(),
+            None => 0,
+        };
+        s.count("merges", &format!("{}", merges));
+        s.count("root_lite_eq_full", &verdict(&ev.root_lite, &ev.root_full));
+        s.count("root_client_eq_full", &verdict(&ev.root_client, &ev.root_full));
+        if let R::Panic(site) = ev.lite {
+            s.count("lite_panic_site", &format!("{}", site));
+        }
+        if omitted > 0 && omitted < keep.len() {
+            // non-trivial: something omitted and something kept
+            if self.distinct.insert(format!("{}|{}|{}", block_name, full.id, pattern)) {
+                s.nontrivial += 1;
+            }
+        }
+        if use_oracle {
+            for (id, what) in oracle(full, ks, &ev, ref_root) {
+                if id.is_empty() {
+                    s.oracle_failure(case, &what, &desc);
+                } else {
+                    s.count("known_class_hits", &id);
+                    let seen = self.known_seen.entry(id.clone()).or_insert(0);
+                    *seen += 1;
+                    if *seen <= 3 {
+                        s.known_hit(&id, case, &format!("{} [keep pattern {} -> lite {}]", what, pattern, lite_shape));
+                    }
+                }
+            }
+        }
+        if s.samples.len() < 6 && (case % 97 == 5 || kind != "chain") {
+            s.samples.push(desc.clone());
+        }
+        s.case_descs.push(desc);
+    }
+}
+
+fn fake_key(i: u8) -> SaitoPublicKey {
+    let mut k = [0u8; 33];
+    k[0] = 2;
+    k[1] = 0xfa;
+    k[32] = i;
+    k
+}
+
+fn synthetic_block(rng: &mut Rng, ntx: usize) -> (Block, Vec<SaitoPublicKey>) {
+    let mut b = Block::new();
+    b.id = rng.range(2, 50);
+    b.timestamp = rng.range(1000, 9000);
+    b.previous_block_hash = hash(&rng.next().to_be_bytes());
+    b.creator = fake_key(200);
+    b.treasury = rng.below(1000);
+    b.graveyard = rng.below(1000);
+    b.burnfee = rng.below(1000);
+    b.difficulty = rng.below(10);
+    b.total_fees = rng.below(1000);
+    b.avg_total_fees = rng.below(1000);
+    b.avg_payout_mining = rng.below(1000);
+    b.previous_block_unpaid = rng.below(1000);
+    b.fee_per_byte = rng.below(10);
+    b.signature = [rng.below(250) as u8 + 1; 64];
+    let spv_heavy = rng.chance(1, 2);
+    let unhashed = rng.chance(1, 6);
+    for _ in 0..ntx {
+        let mut t = Transaction::default();
+        t.timestamp = rng.range(1, 5000);
+        let ty = if rng.chance(if spv_heavy { 3 } else { 1 }, 6) {
+            TransactionType::SPV
+        } else {
+            *rng.pick(&[
+                TransactionType::Normal,
+                TransactionType::Normal,
+                TransactionType::Normal,
+                TransactionType::Fee,
+                TransactionType::GoldenTicket,
+                TransactionType::ATR,
+            ])
+        };
+        t.transaction_type = ty;
+        t.txs_replacements = *rng.pick(&[1u32, 1, 1, 1, 2, 2, 0, 3, 4]);
+        let mut sig = [0u8; 64];
+        let a = hash(&rng.next().to_be_bytes());
+        sig[0..32].copy_from_slice(&a);
+        sig[32..64].copy_from_slice(&hash(&a));
+        t.signature = sig;
+        let nf = rng.below(3);
+        for _ in 0..nf {
+            let mut s = Slip::default();
+            s.public_key = fake_key(rng.below(6) as u8);
+            s.amount = 0;
+            s.slip_type = SlipType::Normal;
+            t.from.push(s);
+        }
+        let nt = rng.below(3);
+        for i in 0..nt {
+            let mut s = Slip::default();
+            s.public_key = fake_key(rng.below(6) as u8);
+            s.amount = 0;
+            s.slip_index = i as u8;
+            s.slip_type = SlipType::Normal;
+            t.to.push(s);
+        }
+        if rng.chance(1, 3) {
+            t.data = vec![rng.below(256) as u8; rng.below(5) as usize];
+        }
+        if unhashed && rng.chance(1, 4) {
+            t.hash_for_signature = None;
+        } else if rng.chance(1, 2) {
+            t.generate_hash_for_signature();
+        } else {
+            t.hash_for_signature = Some(hash(&rng.next().to_be_bytes()));
+        }
+        b.transactions.push(t);
+    }
+    if rng.chance(1, 2) {
+        if let Some(lv) = leaf_values(&b.transactions) {
+            // consistent root
+            let mut s = Sym::new();
+            b.merkle_root = s.ref_merkle(&lv);
+        }
+    } else if rng.chance(1, 2) {
+        b.merkle_root = hash(&rng.next().to_be_bytes());
+    }
+    b.hash = if rng.chance(1, 2) { Sym::header_hash_value(&b) } else { hash(&rng.next().to_be_bytes()) };
+    let nks = rng.below(4);
+    let ks: Vec<SaitoPublicKey> = (0..nks).map(|_| fake_key(rng.below(7) as u8)).collect();
+    (b, ks)
+}
 
 #[tokio::main(flavor = "current_thread")]
 async fn main() {
+    let args = Args::parse();
     verif_harness::common::init_log();
+    let thorough = args.tier == "thorough";
+    let mut rng = Rng::new(args.seed);
+
+    let mut ctx = Ctx {
+        sym: Sym::new(),
+        summary: Summary::new("C18"),
+        coq_cases: vec![],
+        distinct: BTreeSet::new(),
+        known_seen: HashMap::new(),
+    };
+
+    // ------------------------------------------------------------ a real chain
+    let max_n: usize = if thorough { 10 } else { 8 };
     let params = Params { genesis_period: 100, ..Params::default() };
     let mut node = Node::new(&params, 1);
     let nk = 10usize;
     let fk: Vec<_> = (0..nk).map(|j| keypair(20 + j as u8)).collect();
     let tk: Vec<_> = (0..nk).map(|j| keypair(40 + j as u8)).collect();
-    let per = 24usize;
+    let decoys: Vec<SaitoPublicKey> = (0..3).map(|j| keypair(70 + j as u8).0).collect();
+    let per = 2 * (max_n + 1) + 6;
     let mut iss = vec![(node.pk, 10_000_000u64)];
     for j in 0..nk {
         for _ in 0..per {
             iss.push((fk[j].0, 1_000_000));
         }
     }
-    let g = make_genesis(&node, 1000, &iss).await.unwrap();
-    println!("genesis {:?} txs {}", node.add_block(g.clone()).await, g.transactions.len());
+    let g = make_genesis(&node, 1000, &iss).await.expect("genesis");
+    assert_eq!(node.add_block(g.clone()).await, AddClass::OnChain);
     let mut parent = g.clone();
     let mut used = 0usize;
-    for n in 0..=4usize {
+    let mut blocks: Vec<(String, Block)> = vec![];
+    for n in 0..=max_n {
         for gt in [false, true] {
             let ts = parent.timestamp + 120_000;
             let mut txs = vec![];
             for j in 0..n {
-                let idx = 1 + j * per + used;
-                let inp = outputs_of(&g, idx);
-                txs.push(make_tx(&inp[0..1], &[(tk[j].0, inp[0].amount - 1000)], &fk[j].1, ts));
+                let inp = outputs_of(&g, 1 + j * per + used);
+                let fee = 1000 + 10 * j as u64;
+                txs.push(make_tx(&inp[0..1], &[(tk[j].0, inp[0].amount - fee)], &fk[j].1, ts));
             }
             used += 1;
-            let b = make_block(&node, parent.hash, ts, txs, gt, 7).await.unwrap();
+            let b = make_block(&node, parent.hash, ts, txs, gt, 7 + n as u64).await.expect("block");
             let r = node.add_block(b.clone()).await;
-            println!(
-                "n={} gt={} -> {:?} id {} types {:?}",
-                n,
-                gt,
-                r,
-                b.id,
-                b.transactions.iter().map(|t| t.transaction_type as u8).collect::<Vec<_>>()
-            );
-            // pipeline
-            let bytes = b.serialize_for_net(BlockType::Full);
-            let mut full = Block::deserialize_from_net(&bytes).unwrap();
-            full.generate().unwrap();
-            assert_eq!(full.hash, b.hash);
-            let lite = full.generate_lite_block(vec![]);
-            let root_full = full.generate_merkle_root(false, false);
-            let root_lite = lite.generate_merkle_root(false, false);
-            let lb = lite.serialize_for_net(BlockType::Full);
-            let mut cl = Block::deserialize_from_net(&lb).unwrap();
-            cl.generate().unwrap();
-            let root_cl = cl.generate_merkle_root(false, false);
-            println!(
-                "   lite: {:?} mr_field_eq {} root_lite_eq {} root_wire_eq {} hash_eq {}",
-                lite.transactions
-                    .iter()
-                    .map(|t| (t.transaction_type as u8, t.txs_replacements))
-                    .collect::<Vec<_>>(),
-                lite.merkle_root == full.merkle_root,
-                root_lite == root_full,
-                root_cl == root_full,
-                cl.hash == full.hash
-            );
-            for t in &full.transactions {
-                if t.transaction_type == TransactionType::Fee || t.transaction_type == TransactionType::GoldenTicket {
-                    println!(
-                        "   type {:?} from {:?} to {:?}",
-                        t.transaction_type,
-                        t.from.iter().map(|s| hex::encode(&s.public_key[0..4])).collect::<Vec<_>>(),
-                        t.to.iter().map(|s| hex::encode(&s.public_key[0..4])).collect::<Vec<_>>()
-                    );
-                }
+            ctx.summary.count("chain_block_added", &format!("{:?}", r));
+            // an empty block is not valid on chain; it is still a block the route could be asked for
+            assert!(r == AddClass::OnChain || (n == 0 && !gt), "block n={} gt={} -> {:?}", n, gt, r);
+            if r == AddClass::OnChain {
+                parent = b.clone();
             }
-            if r == AddClass::OnChain { parent = b; }
+            blocks.push((format!("chain n={} gt={}", n, gt), b));
         }
     }
-    // experiment A: normal tx with txs_replacements = 2
+    // accepted block with a normal transaction whose txs_replacements is 2
     {
         let ts = parent.timestamp + 120_000;
         let mut txs = vec![];
         for j in 0..3 {
-            let idx = 1 + j * per + used;
-            let inp = outputs_of(&g, idx);
+            let inp = outputs_of(&g, 1 + j * per + used);
             let mut tx = make_tx(&inp[0..1], &[(tk[j].0, inp[0].amount - 1000)], &fk[j].1, ts);
-            if j == 1 { tx.txs_replacements = 2; tx.sign(&fk[j].1); }
+            if j == 1 {
+                tx.txs_replacements = 2;
+                tx.sign(&fk[j].1);
+            }
             txs.push(tx);
         }
         used += 1;
-        let b = make_block(&node, parent.hash, ts, txs, false, 7).await.unwrap();
+        let b = make_block(&node, parent.hash, ts, txs, false, 3).await.expect("block");
         let r = node.add_block(b.clone()).await;
-        println!("A: {:?} repl {:?}", r, b.transactions.iter().map(|t| t.txs_replacements).collect::<Vec<_>>());
-        let lite = b.generate_lite_block(vec![tk[0].0, tk[2].0]);
-        println!("   lite {:?} root_eq {}", lite.transactions.iter().map(|t| (t.transaction_type as u8, t.txs_replacements)).collect::<Vec<_>>(), lite.generate_merkle_root(false,false) == b.merkle_root);
-        let lite = b.generate_lite_block(vec![tk[0].0, tk[1].0, tk[2].0]);
-        println!("   lite-all {:?} root_eq {}", lite.transactions.iter().map(|t| (t.transaction_type as u8, t.txs_replacements)).collect::<Vec<_>>(), lite.generate_merkle_root(false,false) == b.merkle_root);
-        if r == AddClass::OnChain { parent = b; }
+        ctx.summary.count("replacements2_block_added", &format!("{:?}", r));
+        if r == AddClass::OnChain {
+            parent = b.clone();
+            blocks.push(("accepted block, one transfer with txs_replacements=2".to_string(), b));
+        } else {
+            ctx.summary.notes.push("block with txs_replacements=2 was not accepted; class replacements-gt-1 not exercised on a chain block".to_string());
+        }
     }
-    // experiment B: transaction appended after signing (stale merkle root)
+    // accepted block whose transactions were reordered after signing (merkle root stale, C06 defect)
     {
         let ts = parent.timestamp + 120_000;
         let mut txs = vec![];
         for j in 0..3 {
-            let idx = 1 + j * per + used;
-            let inp = outputs_of(&g, idx);
+            let inp = outputs_of(&g, 1 + j * per + used);
             txs.push(make_tx(&inp[0..1], &[(tk[j].0, inp[0].amount - 1000)], &fk[j].1, ts));
         }
-        used += 1;
-        let mut b = make_block(&node, parent.hash, ts, txs, false, 7).await.unwrap();
-        let h0 = b.hash;
+        let mut b = make_block(&node, parent.hash, ts, txs, false, 3).await.expect("block");
         b.transactions.swap(0, 1);
-        b.generate().unwrap();
-        println!("B: hash unchanged {}", h0 == b.hash);
+        b.generate().expect("generate");
         let r = node.add_block(b.clone()).await;
-        println!("B: {:?}", r);
-        let bytes = b.serialize_for_net(BlockType::Full);
-        let mut full = Block::deserialize_from_net(&bytes).unwrap();
-        full.generate().unwrap();
-        let lite = full.generate_lite_block(vec![tk[0].0, tk[1].0, tk[2].0]);
-        let lb = lite.serialize_for_net(BlockType::Full);
-        let mut cl = Block::deserialize_from_net(&lb).unwrap();
-        cl.generate().unwrap();
-        println!("   lite mr_field_eq {} lite.hash==full.hash {} client.hash==full.hash {}", lite.merkle_root == full.merkle_root, lite.hash == full.hash, cl.hash == full.hash);
+        ctx.summary.count("stale_root_block_added", &format!("{:?}", r));
+        if r == AddClass::OnChain {
+            blocks.push(("accepted block, transactions swapped after signing (stale merkle root)".to_string(), b));
+        } else {
+            ctx.summary.notes.push("block with stale merkle root was not accepted; class stale-merkle-root not exercised".to_string());
+        }
     }
+
+    install_hook();
+    for (name, stored) in &blocks {
+        // the route: read from disk, deserialize, generate
+        let bytes = stored.serialize_for_net(BlockType::Full);
+        let mut full = Block::deserialize_from_net(&bytes).expect("deserialize");
+        full.generate().expect("generate");
+        assert_eq!(full.hash, stored.hash);
+        // transfers in block order: (index, j)
+        let transfers: Vec<(usize, usize)> = full
+            .transactions
+            .iter()
+            .enumerate()
+            .filter(|(_, t)| t.transaction_type == TransactionType::Normal)
+            .map(|(i, t)| (i, tk.iter().position(|k| k.0 == t.to[0].public_key).expect("transfer key")))
+            .collect();
+        let m = transfers.len();
+        let has_special = full.transactions.len() > m;
+        let kind = if name.starts_with("chain") { "chain" } else { "chain-special" };
+        for mask in 0u32..(1u32 << m) {
+            let node_variants: &[bool] = if has_special { &[false, true] } else { &[false] };
+            for with_node in node_variants {
+                let mut ks: Vec<SaitoPublicKey> = vec![];
+                for (bit, (_, j)) in transfers.iter().enumerate() {
+                    if mask & (1 << bit) != 0 {
+                        // relevant through the output key, the input key, or both
+                        match rng.below(3) {
+                            0 => ks.push(tk[*j].0),
+                            1 => ks.push(fk[*j].0),
+                            _ => {
+                                ks.push(fk[*j].0);
+                                ks.push(tk[*j].0);
+                            }
+                        }
+                    }
+                }
+                if *with_node {
+                    ks.push(node.pk);
+                }
+                if rng.chance(1, 3) {
+                    ks.insert(rng.below(ks.len() as u64 + 1) as usize, *rng.pick(&decoys));
+                }
+                if rng.chance(1, 4) && ks.len() > 1 {
+                    ks.reverse();
+                }
+                ctx.run(kind, name, &full, &ks, true);
+            }
+        }
+    }
+
+    // ------------------------------------------------------------ lite blocks as input (lite of lite)
+    {
+        let (_, stored) = &blocks[9.min(blocks.len() - 1)];
+        let mut full = stored.clone();
+        full.generate().expect("generate");
+        for ks in [vec![], vec![tk[0].0], vec![tk[1].0, tk[2].0], vec![node.pk]] {
+            let l1 = full.generate_lite_block(ks.clone());
+            if let Some(c) = wire_trip(&l1) {
+                for ks2 in [vec![], vec![tk[0].0], vec![tk[3].0, node.pk]] {
+                    ctx.run("lite-of-lite", "received lite block as input", &c, &ks2, false);
+                    ctx.run("lite-of-lite", "in-memory lite block as input", &l1, &ks2, false);
+                }
+            }
+        }
+    }
+
+    // ------------------------------------------------------------ synthetic blocks (model correspondence only)
+    let n_syn = if thorough { 4000 } else { 500 };
+    for i in 0..n_syn {
+        let ntx = match i % 5 {
+            0 => rng.below(3),
+            1 | 2 => rng.range(2, 6),
+            _ => rng.range(3, 12),
+        } as usize;
+        let (b, ks) = synthetic_block(&mut rng, ntx);
+        ctx.run("synthetic", "synthetic", &b, &ks, false);
+    }
+    // u32 overflow of txs_replacements in the merge loop (overflow-checks build panics)
+    {
+        let mut rr = Rng::new(77);
+        let (mut b, _) = synthetic_block(&mut rr, 0);
+        for _ in 0..2 {
+            let mut t = Transaction::default();
+            t.transaction_type = TransactionType::SPV;
+            t.txs_replacements = 1 << 31;
+            let mut s = Slip::default();
+            s.public_key = fake_key(1);
+            t.to.push(s);
+            t.hash_for_signature = Some(hash(&[1, 2, 3]));
+            b.transactions.push(t);
+        }
+        ctx.run("synthetic", "synthetic replacements 2^31", &b, &[fake_key(1)], false);
+    }
+
+    // ------------------------------------------------------------ output
+    let mut summary = ctx.summary;
+    summary.evaluations = ctx.coq_cases.len() as u64;
+    let mut header = String::from("From Saito Require Import Base Merkle Lite.\nOpen Scope N_scope.\n");
+    for d in &ctx.sym.defs {
+        header.push_str(d);
+        header.push('\n');
+    }
+    header.push_str(
+        "(* merkle.rs panic sites are not told apart by the harness *)\n\
+         Definition canon {A} (r : res A) : res A :=\n  \
+           match r with Panic s => Panic (if (s =? P_ROOT_UNWRAP) || (s =? P_ROOT_EMPTY) then P_MERKLE_UNWRAP else s) | _ => r end.\n\
+         Definition canon_obs (o : obs) : obs :=\n  \
+           mkObs (canon (o_lite o)) (canon (o_root_lite o)) (canon (o_client o)) (canon (o_root_client o)) (canon (o_root_full o)).\n\
+         Definition check (c : block * list N * obs) : bool :=\n  \
+           let '(b, ks, o) := c in obs_eqb (canon_obs (observe b ks)) o.",
+    );
+    let files = gal::write_shards(
+        &format!("{}/cases", args.out),
+        "C18",
+        &header,
+        "block * list N * obs",
+        &ctx.coq_cases,
+        args.shards,
+    )
+    .unwrap();
+    summary.case_files = files;
+    summary.write(&args.out);
 }
